@@ -227,6 +227,9 @@ def run(ctx):
         if tuple(r.shape[-2:]) != (h, w) or not torch.allclose(r.reshape(h, w).to(u.dtype), u, atol=1e-4):
             ctx.violation('propagate_beam(z=0, zero_padding=[True,False,True]) != input for %dx%d' % (h, w), {'h': h, 'w': w},
                           {'api': 'torch', 'fn': 'propagate_beam', 'what': 'z0_padcrop', 'parity_h': h % 2, 'parity_w': w % 2})
+    # ---- executable tie of the regenerated TENSOR PROGRAMS (rank / layout handling, allocation, slice store, np.pad, squeezes)
+    from .genpadcrop import check_generated_padcrop
+    check_generated_padcrop(ctx)
 
 
 def replay(ctx, rep):
